@@ -6,3 +6,4 @@ import LLBuild.Props.C01
 import LLBuild.Props.C01Gen
 import LLBuild.Props.EngineImplSoundGen
 import LLBuild.Props.EngineImplSound
+import LLBuild.Props.EngineImplSched
